@@ -2930,10 +2930,11 @@ fn write_reference_immediately(
 
 /// Compute reverse complement of a sequence
 fn reverse_complement_sequence(seq: &[u8]) -> Vec<u8> {
-    use crate::kmer::reverse_complement;
+    // Codes >= 4 (N, IUPAC ambiguity codes, unknown letters) are reversed but not complemented,
+    // exactly as the decompressor's reverse_complement_segment undoes it (C++ AGC: (*p < 4) ? 3 - *p : *p)
     seq.iter()
         .rev()
-        .map(|&base| reverse_complement(base as u64) as u8)
+        .map(|&base| if base < 4 { 3 - base } else { base })
         .collect()
 }
 
